@@ -223,12 +223,14 @@ func (rd Renderer) Render(ctx context.Context, page string, data authboss.HTMLDa
 
 // SMSSender records text messages.
 type SMSSender struct {
-	Sent  []SMS
+	Sent  []SMS // delivered messages
+	Tried []SMS // every message handed to Send, delivered or not
 	Fault func(site string) bool
 }
 type SMS struct{ Number, Text string }
 
 func (s *SMSSender) Send(ctx context.Context, number, text string) error {
+	s.Tried = append(s.Tried, SMS{number, text})
 	if s.Fault != nil && s.Fault("SMS.Send") {
 		return ErrInjected
 	}
